@@ -1056,9 +1056,17 @@ Section CallProofs.
   Theorem restore_total_ok : forall k v, restorable k v = true -> restore k v = Ok (restore_total k v).
   Proof.
     intros k v H. unfold Adapter.restore, Adapter.restore_total.
-    destruct v as [c g|c g m|l|l| |s]; cbn [is_opt_exact is_ind seq_items]; try reflexivity.
+    destruct v as [c g|c g m|l|l|kd l| |s]; cbn [is_opt_exact is_ind seq_items]; try reflexivity.
     - destruct c; cbn [is_opt_exact]; try reflexivity. apply restore1_ok. destruct k; reflexivity.
     - cbn [restore_ind]. apply restore1_ok. exact H.
+    - destruct l as [|h t]; [reflexivity|]. cbn [restorable] in H. destruct (is_ind h) eqn:Ei; cbn [orb].
+      + rewrite (map_res_ok (restore_ind cvR k) (restore_elem cvR k)); [reflexivity|].
+        intros x Hx. eapply forallb_forall in H; [|exact Hx]. apply andb_true_iff in H as [H1 H2].
+        destruct x; try discriminate H1. cbn. apply restore1_ok. exact H2.
+      + destruct (is_opt_inst k h) eqn:Eo; [|reflexivity].
+        rewrite (map_res_ok (fun x => restore1 cvR k x None) (restore_elem cvR k)); [reflexivity|].
+        intros x Hx. eapply forallb_forall in H; [|exact Hx]. apply andb_true_iff in H as [H1 H2].
+        destruct x; try discriminate H1. cbn. apply restore1_ok. exact H2.
     - destruct l as [|h t]; [reflexivity|]. cbn [restorable] in H. destruct (is_ind h) eqn:Ei; cbn [orb].
       + rewrite (map_res_ok (restore_ind cvR k) (restore_elem cvR k)); [reflexivity|].
         intros x Hx. eapply forallb_forall in H; [|exact Hx]. apply andb_true_iff in H as [H1 H2].
@@ -1084,9 +1092,13 @@ Section CallProofs.
   Proof.
     intros k v H. unfold Adapter.adapt, Adapter.adapt_total.
     destruct (is_dom_exact k v) eqn:Ed.
-    - destruct v as [c g|c g m|l|l| |s]; try (destruct k; discriminate Ed).
+    - destruct v as [c g|c g m|l|l|kd l| |s]; try (destruct k; discriminate Ed).
       cbn [adapt_elem]. apply adapt1_ok. eapply dom_exact_can_adapt. exact Ed.
-    - destruct v as [c g|c g m|l|l| |s]; cbn [seq_items]; try reflexivity.
+    - destruct v as [c g|c g m|l|l|kd l| |s]; cbn [seq_items]; try reflexivity.
+      + destruct l as [|h t]; [reflexivity|]. cbn [adaptable] in H. destruct (is_dom_exact k h); [|reflexivity].
+        rewrite (map_res_ok (adapt1 cvA k) (adapt_elem cvA k)); [reflexivity|].
+        intros x Hx. eapply forallb_forall in H; [|exact Hx]. destruct x; try discriminate H.
+        cbn [adapt_elem]. apply adapt1_ok. exact H.
       + destruct l as [|h t]; [reflexivity|]. cbn [adaptable] in H. destruct (is_dom_exact k h); [|reflexivity].
         rewrite (map_res_ok (adapt1 cvA k) (adapt_elem cvA k)); [reflexivity|].
         intros x Hx. eapply forallb_forall in H; [|exact Hx]. destruct x; try discriminate H.
@@ -1114,7 +1126,7 @@ Section CallProofs.
     (forall v, p v = true -> fr v = Ok (tr v)) -> result_ok p r = true ->
     transform_result fr r = Ok (result_total tr r).
   Proof.
-    intros fr tr p r H Hr. destruct r as [c g|c g m|l|l| |s]; cbn [transform_result result_total result_ok] in *;
+    intros fr tr p r H Hr. destruct r as [c g|c g m|l|l|kd l| |s]; cbn [transform_result result_total result_ok] in *;
       try (apply H; exact Hr); try reflexivity.
     rewrite (map_res_ok fr tr); [reflexivity|]. intros x Hx. apply H. eapply forallb_forall in Hr; eauto.
   Qed.
@@ -1539,6 +1551,7 @@ Section ValInd.
   Hypothesis HI : forall c g m, P (VInd c g m).
   Hypothesis HS : forall l, Forall P l -> P (VSeq l).
   Hypothesis HT : forall l, Forall P l -> P (VTuple l).
+  Hypothesis HU : forall k l, Forall P l -> P (VUserSeq k l).
   Hypothesis HN : P VNone.
   Hypothesis HC : forall s, P (VScalar s).
   Fixpoint val_ind' (v : @val G M) : P v :=
@@ -1549,6 +1562,8 @@ Section ValInd.
                          match l with [] => Forall_nil _ | x :: r => Forall_cons _ (val_ind' x) (go r) end) l)
     | VTuple l => HT l ((fix go (l : list val) : Forall P l :=
                            match l with [] => Forall_nil _ | x :: r => Forall_cons _ (val_ind' x) (go r) end) l)
+    | VUserSeq k l => HU k l ((fix go (l : list val) : Forall P l :=
+                                match l with [] => Forall_nil _ | x :: r => Forall_cons _ (val_ind' x) (go r) end) l)
     | VNone => HN
     | VScalar s => HC s
     end.
@@ -1572,13 +1587,22 @@ Proof.
   rewrite <- IH. reflexivity.
 Qed.
 
+Lemma t_val_eqb_user : forall k k' l r,
+  t_val_eqb (VUserSeq k l) (VUserSeq k' r) = Nat.eqb k k' && list_eqb t_val_eqb l r.
+Proof.
+  unfold t_val_eqb. intros k k' l r. cbn [val_eqb]. f_equal. revert r.
+  induction l as [|x l IH]; intros [|y r]; cbn [list_eqb]; try reflexivity.
+  rewrite <- IH. reflexivity.
+Qed.
+
 Lemma t_val_eqb_refl : forall v : tval, t_val_eqb v v = true.
 Proof.
-  induction v as [c g|c g m|l IH|l IH| |s] using val_ind'.
+  induction v as [c g|c g m|l IH|l IH|k l IH| |s] using val_ind'.
   - unfold t_val_eqb. cbn. rewrite gcl_eqb_refl, Nat.eqb_refl. reflexivity.
   - unfold t_val_eqb. cbn. rewrite gcl_eqb_refl, !Nat.eqb_refl. reflexivity.
   - rewrite t_val_eqb_seq. apply list_eqb_refl. exact IH.
   - rewrite t_val_eqb_tuple. apply list_eqb_refl. exact IH.
+  - rewrite t_val_eqb_user, Nat.eqb_refl. apply list_eqb_refl. exact IH.
   - reflexivity.
   - unfold t_val_eqb. cbn. apply String.eqb_refl.
 Qed.
